@@ -28,6 +28,8 @@ def replay (j : Json) : R Verdict := do
   let mut pf : List String := []
   let mut dis : Option String := none
   let mut tags : List String := [s!"run:threaded={threaded}", s!"run:nc={nc}"]
+  if (fieldD j "immediate").getBool?.toOption == some true then tags := "run:immediate-async" :: tags
+  if (fieldD j "tiny").getBool?.toOption == some true then tags := "run:tiny-objective" :: tags
   match compile crits with
   | none =>
     tags := "run:conflict" :: tags
@@ -36,6 +38,7 @@ def replay (j : Json) : R Verdict := do
   | some c =>
     if ret.compress == "\"conflict\"" then dis := some "termination criteria: model accepts, impl reports a conflict"
     let n := c.maxEval.getD 0
+    if n == 0 then tags := "run:zero-budget" :: tags
     if calls > n then pf := pf ++ [s!"C03: {calls} evaluations started, budget {n}"]
     if maxLive > nc then pf := pf ++ [s!"C05: {maxLive} evaluations in progress at once, num_concurrent {nc}"]
     if (fieldD j "barrier").getBool?.toOption == some true then
